@@ -459,7 +459,7 @@ func (ed Editor) InsertDefinitionsTableOpts(pos int, definitions [][2]string, wi
 	// first find the longest term
 	longestTermLen := -1
 	for _, t := range definitions {
-		strLen := len([]rune(t[0]))
+		strLen := gem.New(t[0]).Len()
 		if strLen > longestTermLen {
 			longestTermLen = strLen
 		}
@@ -477,8 +477,8 @@ func (ed Editor) InsertDefinitionsTableOpts(pos int, definitions [][2]string, wi
 		term := item[0]
 		def := item[1]
 		rightPadding := ""
-		if len([]rune(term)) < longestTermLen {
-			rightPadding = strings.Repeat(" ", longestTermLen-len([]rune(term)))
+		if gem.New(term).Len() < longestTermLen {
+			rightPadding = strings.Repeat(" ", longestTermLen-gem.New(term).Len())
 		}
 		leftTab := strings.Repeat(" ", termLeftTabWidth)
 		leftCol := tb.Block{
